@@ -65,7 +65,7 @@ def gen_str(r, kind, sep, esc):
         alpha = '\x0b\x0c\x1c\x1d\x1e\x85\u2028\u2029' + base + sep[0]
     elif kind == 'dense_unicode':
         # almost every byte of the file belongs to a 2-4 byte character: some character straddles each 64 KiB read boundary
-        return ''.join(r.choice('\xe9€\U0001f600\u4e2d' + sep[0]) for _ in range(r.randint(15, 40)))
+        return ''.join(r.choice('\xe9€\U0001f600\u4e2d\ufeff\ufeff' + sep[0]) for _ in range(r.randint(15, 40)))
     else:                      # adversarial: everything
         alpha = sep + '"' + esc + ' a' + sep[0]
     n = r.choice([0, 1, 1, 2, 3, 4, r.randint(0, 12)])
@@ -97,6 +97,33 @@ def build_rows(spec, cols, sep, esc):
     return rows
 
 
+class FreshRows:
+    """an iterable that builds every row anew at each iteration and keeps no reference to it"""
+
+    def __init__(self, row_type, rows):
+        self.row_type = row_type
+        self.rows = rows
+
+    def __len__(self):
+        return len(self.rows)
+
+    @staticmethod
+    def fresh(v):
+        if isinstance(v, bool) or v is None:
+            return v
+        if isinstance(v, str):
+            return ''.join(list(v)) if v else v
+        if isinstance(v, float):
+            return float.fromhex(v.hex())
+        if isinstance(v, int):
+            return int(str(v))
+        return v
+
+    def __iter__(self):
+        for r in self.rows:
+            yield self.row_type(*[self.fresh(v) for v in r])
+
+
 def same_field(a, b):
     if type(a) is not type(b):
         return False
@@ -119,7 +146,7 @@ class C18(Check):
                    'floats are finite and compared with == plus sign']
     ANCHORS = ['rxsci/container/csv.py', 'rxsci/io/file.py', 'rxsci/framing/line.py']
     REQUIRED_TAGS = ['stream', 'file', 'enc=None', 'enc=utf-8', 'multi-chunk-file', 'cols=1', 'cols=8',
-                     'skind=adversarial', 'skind=huge', 'skind=control', 'fkind=bits', 'sep=,', 'sep=;', 'sep=|', 'sep=tab', 'sep=multi', 'pushed-source', 'multibyte-char-across-a-64KiB-boundary']
+                     'skind=adversarial', 'skind=huge', 'skind=control', 'fkind=bits', 'sep=,', 'sep=;', 'sep=|', 'sep=tab', 'sep=multi', 'pushed-source', 'multibyte-char-across-a-64KiB-boundary', 'rows-not-retained']
     REQUIRED_OBSERVED = ['fields_compared', 'rows_needing_quote_merge']
 
     def __init__(self):
@@ -169,8 +196,17 @@ class C18(Check):
         names = ['c%d' % i for i in range(len(cols))]
         Row = namedtuple('Row', names)
         src = [Row(*r) for r in rows]
+        if case['rows']['rseed'] % 3 == 0:
+            # rows produced on the fly and not retained (a generator, load | map | dump): every field is a NEW object that dies
+            # as soon as its row has been written, so object ids are re-used from row to row
+            src = FreshRows(Row, rows)
+            out_tag_fresh = True
+        else:
+            out_tag_fresh = False
         dtype = [(n, TYPES[t]) for n, t in zip(names, cols)]
         parser = call(csv.create_line_parser, [('dtype', dtype), ('none_values', []), ('separator', sep), ('escapechar', esc)])
+        if out_tag_fresh:
+            out.tags.append('rows-not-retained')
         out.tags += [case['mode'], 'cols=%d' % len(cols), 'skind=' + case['rows']['skind'], 'fkind=' + case['rows']['fkind'],
                      'sep=' + ('tab' if sep == '\t' else sep if len(sep) == 1 else 'multi'), 'esc=' + esc]
         special = set(sep) | {'"', esc, ' ', '\t'}
